@@ -124,6 +124,25 @@ CHECKS = {
         "Trusted: Coq kernel; the .npy byte format and per-leaf shape/dtype check are equinox's (modelled as the interface, tied by the check). One known finding (Python float fields rounded to float32 by the debug callback) is listed in known_findings.json.",
         "DESIGN.md §5 C18",
     ),
+    "C07": (
+        "Coq proof (the stored-flag mask equals 'not terminated' for all flag combinations; target formulas over R) + exact correspondence of dqn_loss, sac_train's q_loss and actor_loss on crafted batches evaluated in Coq",
+        "Theorems: with done = terminated or truncated and timeout = truncated and not terminated, the code's mask ~done|timeout is exactly not-terminated; y = r + gamma*(1-terminated)*V'; never bootstraps on termination, bootstraps through time-outs; behaviour on the flag pair the collector can never store stated separately; SAC V' = min(Q1',Q2') - alpha*log pi. "
+        "Tie: DQN.dqn_loss (Double-DQN selection with tabular online/target Q), the q_loss reported by the real SAC.sac_train with a deterministic stub policy and tabular critics, SAC.actor_loss; gradient trees returned by the value-and-grad wrappers cover the first argument only.",
+        "Trusted: Coq kernel; Reals axioms; 'no gradient reaches the targets' is a fact about eqx.filter_value_and_grad: modelled as data flow, confirmed numerically (named in not_proved).",
+        "DESIGN.md §5 C07",
+    ),
+    "C08": (
+        "Coq proof over R (clipped surrogate: identity inside the clip interval, constant with zero derivative (Coquelicot is_derive) outside in the favoured direction; ratio 1 => KL 0 and loss = -mean A; value clipping takes the larger error; global-norm clipping bounded and direction-preserving) + oracle-assisted correspondence of the static loss functions evaluated in Coq",
+        "The published objectives are the definitions of Lerax.Losses; theorems are their consequences for all buffers and coefficients. Tie: PPO.ppo_loss / A2C.a2c_loss / REINFORCE.reinforce_loss values and statistics on generated buffers with a tabular policy for all flag combinations (exp and std as float64 oracle inputs, 1e-9), exact-zero gradients for out-of-clip samples, global-norm clipping of the optimiser chain.",
+        "Trusted: Coq kernel; Reals axioms + classic (Coquelicot); Adam internals not modelled.",
+        "DESIGN.md §5 C08",
+    ),
+    "C20": (
+        "Coq proof over R (fmod-based phase advance: range, congruence, half-cycle separation along arbitrary histories by induction; Bezier foot-height bounds; scale lemmas; frame lemmas on a record model of the MJX model) + exact rational tie of gait.py's source and float ties of the real functions, G1 initial states compared leaf-by-leaf with the nominal model",
+        "34 theorems for all phases, frequencies with non-negative increments, arbitrarily long step histories, all ranges. Tie: gait.py executed with an exact Fraction shim vs the Coq model (Qeq), the real jnp functions on grids and 10^4-step histories, randomize_model and initial() of the G1 tasks over many keys: randomised fields in range, all 124 other array leaves bitwise nominal, commands/frequencies in range, mjx.forward consistency.",
+        "Trusted: Coq kernel; Reals axioms. NOT proved: that MJX's model differs from nominal only in the named fields and forward consistency (observed leaf-by-leaf), jr.uniform staying in range, float rounding at the wrap.",
+        "DESIGN.md §5 C20",
+    ),
 }
 
 NOT_YET = "check not built yet in this round (planned: see DESIGN.md §5)"
